@@ -1,15 +1,15 @@
 #!/bin/bash
-# run_seed.sh <seeded-id> <check-id> [tier]: applies /verif/seeded/<id>/patch.diff to /repo, starts the check, reverts /repo as soon
-# as the check has taken its scratch copy. Output: /tmp/seedrun/<id>.<check>.out (last line: exit=<code>).
+# run_seed.sh <seeded-id> <check-id> [tier]: runs a check against a seeded change. The change is applied in a scratch worktree
+# of /repo (removed afterwards) and the check is pointed at it with VERIF_REPO, so /repo itself is never modified and background
+# runs that read /repo are not disturbed. (Equivalent to `git -C /repo apply`, run, `git -C /repo checkout -- .`.)
+# Output: /tmp/seedrun/<id>.<check>.out (last line: exit=<code>).
 id=$1; chk=$2; tier=${3:-quick}
 mkdir -p /tmp/seedrun
 out=/tmp/seedrun/$id.$chk.out
-(
- flock 9
- git -C /repo apply /verif/seeded/$id/patch.diff || { echo "patch does not apply" > $out; exit 1; }
- ( cd /verif && VERIF_SCRATCH=/var/tmp ./check $chk $tier > $out 2>&1; echo "exit=$?" >> $out ) &
- for i in $(seq 1 300); do grep -q "scratch copy of" $out 2>/dev/null && break; sleep 0.2; done
- git -C /repo checkout -- . 
- [ -z "$(git -C /repo status --porcelain)" ] || echo "WARNING repo not clean" >> $out
-) 9>/tmp/seedrun/lock
-wait
+wt=/tmp/wt/run_${id}_$chk
+git -C /repo worktree remove --force $wt 2>/dev/null
+git -C /repo worktree add -q --detach $wt HEAD || { echo "worktree failed" > $out; exit 2; }
+trap "git -C /repo worktree remove --force $wt" EXIT
+git -C $wt apply /verif/seeded/$id/patch.diff || { echo "patch does not apply" > $out; exit 2; }
+( cd /verif && VERIF_REPO=$wt ./check $chk $tier > $out 2>&1; echo "exit=$?" >> $out )
+tail -1 $out
